@@ -7,8 +7,9 @@ from runner import Script, Cfg
 ID = "C12"
 THEOREMS = ["C12_l2l4_replies_unanswered", "C12_dns_responses_unanswered", "C12_dns_response_not_dns",
             "C12_stun_nonrequests_unanswered", "C12_own_dns_reply_typed", "C12_own_stun_reply_typed",
-            "C12_own_rpc_reply_typed"]
-MONITORS = ["C12"]
+            "C12_own_rpc_reply_typed",
+            "C12frame.C12x_frame", "C12frame.C12x_tcp_first_state", "C12frame.C12x_tcp_first_history", "C12frame.C12_spec_monitor_refuted", "C12frame.C12_rpc_udp_replies_unanswered", "C12frame.C12_rpc_tcp_replies_unanswered", "C12frame.C12_rpc_stream_noncall_unanswered", "C12frame.C12_smb1_replies_unanswered", "C12frame.C12_smb2_replies_unanswered", "C12frame.C12id_udp_other_protocol", "C12frame.C12id_tcp_first_other_protocol", "C12frame.C12id_frame_udp", "C12frame.C12id_frame_tcp_first_history", "C12frame.C12_chain_no_repeat_partial", "C12frame.C12_silent_examples", "C12frame.C12_answered_by_another_protocol", "C12frame.C12_chain_of_length_two", "Env.the_env_ok"]
+MONITORS = ["C12", "C12tcp", "C12idudp", "C12idtcp"]
 RULE = ("reply-typed messages of every protocol: ARP ops != 1, ICMP/ICMPv6 echo replies and neighbour advertisements, TCP "
         "SYN|ACK / RST flag words, DNS messages with QR=1 (all flag words on a grid, 0..4 questions/answers), STUN "
         "indications / success / error responses / other methods with and without magic cookie, ONC-RPC replies (UDP and "
